@@ -489,8 +489,18 @@ def _result_is(ex, st, args, dest_ty, func, where):
     return VBool(simp(r.discr == (0 if func.endswith("is_ok") else 1)))
 
 
+def _opt_int_unwrap_or_default(ex, st, args, dest_ty, func, where):
+    o = args[0]
+    while isinstance(o, VRef):
+        o = ex.deref(st, o)
+    ty = re.search(r"Option::<(\w+)>", func).group(1)
+    v = o.pay[1][0].t if 1 in o.pay else I(0)
+    return VInt(simp(z3.If(o.discr == 1, v, 0)), ty)
+
+
 def install_core(ex):
     A = ex.add_model
+    A(r"^(std::option::)?Option::<(u8|u16|u32|u64|usize|i8|i16|i32|i64|isize)>::unwrap_or_default$", _opt_int_unwrap_or_default, "Option<int>::unwrap_or_default")
     A(r"^(std::result::)?Result::<.*>::is_(ok|err)$", _result_is, "Result::is_ok / is_err")
     A(r"^(std::ops::)?RangeInclusive::<\w+>::new$", _range_incl_new, "RangeInclusive::new")
     A(r"^(std::ops::)?RangeInclusive::<\w+>::contains::<\w+>$", _range_incl_contains, "RangeInclusive::contains")
